@@ -368,7 +368,7 @@ pub fn record(args: &Args) {
             let per_game = if thorough { 12 } else { 5 };
             for (name, t) in games.iter() {
                 for j in 0..per_game {
-                    let fmt = if j % 3 == 2 { "json" } else { "efg" };
+                    let fmt = if j % 5 == 1 || j % 5 == 3 { "json" } else { "efg" };
                     let r = render(t, fmt, &mut rng, None);
                     let mut opts: BTreeMap<&str, String> = BTreeMap::new();
                     opts.insert("m", rng.pick(&METHODS).to_string());
